@@ -835,4 +835,95 @@ def getErrorPath (fi : FileInfo) (inv : Invalid) (u : UnsafeUsage) (infoPrefix i
     (p.reverse.flatMap (callItems inv))
       ++ [(u.loc.file, u.loc.line, wrapU 32 u.loc.col, infoPrefix ++ u.myArgName ++ infoSuffix)]
 
+
+/-! ## 6. The two ways the whole-program analysis gets its input (lib/cppcheck.cpp) -/
+
+/-- what the analysis of one translation unit leaves behind -/
+structure TUSummary where
+  ctu : FileInfo
+  buffer : BufferInfo
+  classes : List ClassDef
+  nullPointer : List UnsafeUsage
+  uninitVar : List UnsafeUsage
+  deriving DecidableEq, Repr, Inhabited
+
+/-- the `setFileInfo(check, text)` calls of `CppCheck::checkNormalTokens` for one translation unit -/
+def TUSummary.infos (simp : Str → Str) (t : TUSummary) : List (Str × Str) :=
+  [("ctu".toList, t.ctu.toStr simp), ("Bounds checking".toList, t.buffer.toStr), ("Class".toList, classListStr t.classes),
+   ("Null pointer".toList, unsafeListStr t.nullPointer), ("Uninitialized variables".toList, unsafeListStr t.uninitVar)]
+
+/-- the cache file of one translation unit -/
+def TUSummary.store (simp : Str → Str) (hash : Nat) (t : TUSummary) : Str := storeFile hash (t.infos simp)
+
+/-- input of the whole-program checks: the accumulated CTU info and, per check, its file infos in file order -/
+structure WholeProgram where
+  ctu : FileInfo
+  buffer : List BufferInfo
+  classes : List (List ClassDef)
+  nullPointer : List (List UnsafeUsage)
+  uninitVar : List (List UnsafeUsage)
+  deriving DecidableEq, Repr, Inhabited
+
+def WholeProgram.empty : WholeProgram := ⟨⟨[], []⟩, [], [], [], []⟩
+
+/-- in memory (`CppCheck::analyseWholeProgram()`): `getFileInfo` returns nullptr for empty summaries -/
+def addInMemory (wp : WholeProgram) (t : TUSummary) : WholeProgram :=
+  { ctu := ⟨wp.ctu.functionCalls ++ t.ctu.functionCalls, wp.ctu.nestedCalls ++ t.ctu.nestedCalls⟩,
+    buffer := if t.buffer.arrayIndex = [] ∧ t.buffer.pointerArith = [] then wp.buffer else wp.buffer ++ [t.buffer],
+    classes := if t.classes = [] then wp.classes else wp.classes ++ [t.classes],
+    nullPointer := if t.nullPointer = [] then wp.nullPointer else wp.nullPointer ++ [t.nullPointer],
+    uninitVar := if t.uninitVar = [] then wp.uninitVar else wp.uninitVar ++ [t.uninitVar] }
+
+def inMemory (tus : List TUSummary) : WholeProgram := tus.foldl addInMemory WholeProgram.empty
+
+/-- which consumer a `check` attribute selects: 0 = "ctu", 1..4 = the four checks with whole-program data, 5 = none -/
+def checkKind (c : Str) : Nat :=
+  if c = "ctu".toList then 0
+  else if c = "Bounds checking".toList then 1
+  else if c = "Class".toList then 2
+  else if c = "Null pointer".toList then 3
+  else if c = "Uninitialized variables".toList then 4
+  else 5
+
+/-- the handler of `CppCheck::analyseWholeProgram(buildDir, …)` for one `<FileInfo check=…>`; `none` = exception -/
+def handleInfo (wp : WholeProgram) (ce : Str × Elem) : Option WholeProgram :=
+  match checkKind ce.1 with
+  | 0 => some { wp with ctu := FileInfo.loadFromXml ce.2 wp.ctu }
+  | 1 =>
+    match BufferInfo.load ce.2 with
+    | some b => some { wp with buffer := wp.buffer ++ [b] }
+    | none => some wp
+  | 2 =>
+    match loadClassInfo ce.2 with
+    | .value l => some { wp with classes := wp.classes ++ [l] }
+    | .null => some wp
+    | .threw => none
+  | 3 =>
+    match loadUnsafeInfo ce.2 with
+    | some l => some { wp with nullPointer := wp.nullPointer ++ [l] }
+    | none => some wp
+  | 4 =>
+    match loadUnsafeInfo ce.2 with
+    | some l => some { wp with uninitVar := wp.uninitVar ++ [l] }
+    | none => some wp
+  | _ => some wp
+
+def handleInfos : List (Str × Elem) → WholeProgram → Option WholeProgram
+  | [], wp => some wp
+  | ce :: r, wp =>
+    match handleInfo wp ce with
+    | none => none
+    | some wp' => handleInfos r wp'
+
+/-- `processFilesTxt` over the cache files; `none` = "failed to load" / exception / outside the model -/
+def fromBuildDir : List Str → WholeProgram → Option WholeProgram
+  | [], wp => some wp
+  | text :: r, wp =>
+    match loadFile text with
+    | .ok l =>
+      match handleInfos l wp with
+      | none => none
+      | some wp' => fromBuildDir r wp'
+    | _ => none
+
 end Cppcheck.Ctu
